@@ -6,7 +6,13 @@ own integer oracle: exact quarter-turn matrix Q on coordinates and mapped vector
 (no use of numpy.rot90).  The component-to-axis mapping is presented to the library in every way the vdim_mapping setter accepts
 (keys in any insertion order, any label spelling incl. labels that look like axis names, not-mapped components pointing to None or to a
 name that is no axis, installed by the constructor or by the setter, more / fewer components than axes): the oracle looks the two
-components up by VALUE in the mapping, never by position.  Bounded: <= 5 cells per axis, k in -5..5, seeded geometry."""
+components up by VALUE in the mapping, never by position.  Bounded: <= 5 cells per axis, k in -5..5, seeded geometry.
+
+The SCALE of the numbers is part of the input space: besides integer-valued fields of magnitude 1e-3 .. 1e3 the same rotations run on fields whose values are of the
+order 1e-15 .. 1e15 (a displacement in metres on a nanometre sample), whose scale differs from cell to cell, from component to component or from entry to entry, and
+that contain exact zeros (whole components, like (Ms, 0, 0), single entries, whole cells); on regions of 1e-12 .. 1e6 with references up to 1000 region sizes away.
+A quarter turn only moves and negates numbers, so every value clause is stated per entry, to ULPS ulp of THAT entry (never an absolute budget, never a budget taken from
+another component or cell); geometry clauses carry budgets relative to max(|corner|, |R|)."""
 import itertools
 import numpy as np
 import discretisedfield as df
@@ -15,31 +21,38 @@ from .common import raises, ulp_close
 PROPERTY = "C12"
 CLAUSES = {
     "C12.point_map": "g(R+Q(p-R)) == Q f(p) at every cell centre p: the own containing-cell lookup of R+Q(p-R) in the result lattice is the permuted index, "
-                     "the value there is Q applied to the two mapped components (64 ulp of the vector scale), unmapped components and scalars are unchanged (exact), validity moves with the cell (exact)",
+                     "every entry of the value there is the entry of Q applied to the two mapped components (Q only moves and negates: to 64 ulp of that entry itself, whatever the scale of the field - an exact zero stays zero, "
+                     "1e-12 next to 1e12 stays 1e-12), unmapped components and scalars are unchanged (exact), validity moves with the cell (exact)",
     "C12.region": "region corners are min/max of R+Q(corner-R) (64 ulp of max(|corner|,|R|) on the two axes), other axes untouched (exact)",
     "C12.counts_units_names": "cell counts and units of the two axes swap for odd k and stay for even k; dims, vdims, vdim_mapping, unit, nvdim stay",
     "C12.subregions": "subregions keep their names and are rotated about the same reference (corners to 64 ulp), carrying the mesh's dims/units",
-    "C12.k_mod_4": "rotation by k and by k mod 4 agree (geometry to 64 ulp, counts/units/validity exact, values to 64 ulp)",
-    "C12.four_turns": "four successive quarter turns about the same reference are the identity (geometry/values to 64 ulp per step, rest exact)",
-    "C12.turn_reverse": "a turn followed by its reverse (-k, or the same k from b to a) about the same reference is the identity",
+    "C12.k_mod_4": "rotation by k and by k mod 4 agree (geometry to 64 ulp, counts/units/validity exact, every value to 64 ulp of itself)",
+    "C12.four_turns": "four successive quarter turns about the same reference are the identity (geometry to 64 ulp per step, every value to 64 ulp of itself, rest exact)",
+    "C12.turn_reverse": "a turn followed by its reverse (-k, or the same k from b to a) about the same reference is the identity (geometry to 64 ulp per step, every value to 64 ulp of itself, rest exact)",
     "C12.consistent": "field.rotate90(..).mesh == mesh.rotate90(..) and mesh.rotate90(..).region == region.rotate90(..) (incl. units, subregions)",
-    "C12.inplace_eq_copy": "the in-place form returns the object itself and leaves it equal to what the copying form returns (region, mesh, field; geometry to 64 ulp, rest exact); the copying form leaves the receiver untouched",
+    "C12.inplace_eq_copy": "the in-place form returns the object itself and leaves it equal to what the copying form returns (region, mesh, field; geometry to 64 ulp, every value to 64 ulp of itself, rest exact); the copying form leaves the receiver untouched",
     "C12.refuse_unmapped": "a vector field without component-to-axis mapping for a or b is refused (RuntimeError) in both forms and the object is left unchanged",
     "C12.mapping_presentation": "the result depends only on the component-to-axis mapping, not on how it is written: fields that differ only in the insertion order of the vdim_mapping dict, "
                                 "in the spelling of the component labels, in what a not-mapped component points to (None / a name that is no axis) or in how the mapping was installed (constructor / setter) "
                                 "rotate to bitwise the same array, validity and mesh (copy form vs copy form, in-place vs in-place) and keep their own vdims and mapping",
-    "C12.accept": "rotation of a scalar field or of a vector field with both components mapped succeeds for every axis pair, k and reference point",
+    "C12.accept": "rotation of a scalar field or of a vector field with both components mapped succeeds for every axis pair, k and reference point, whatever the size of the coordinates and of the values",
 }
-RULE = ("seeded fields on 2-4-d anisotropic meshes (different n and cell per axis, scales 1e-9/1e-3/1 with subregions, 10^U(-12,6) without; distinct units per axis, "
+RULE = ("seeded fields on 2-4-d anisotropic meshes (different n and cell per axis, scales 1e-9/1e-3/1/1e6 with subregions (1e6: whole-number corners and cells), 10^U(-12,6) without; distinct units per axis, "
         "non-default dims), nvdim 1-6 with permuted / partial component-to-axis mappings written with the dict keys in vdims order or shuffled, 5 label spellings (default, reverse-sorting, "
         "axis names shifted by one, y/z/x, shuffled), not-mapped components -> None or a non-axis name, mapping installed by constructor or setter; every ordered axis pair x k in -5..5 x reference (default / arbitrary, up to 100 region sizes away) "
         "x (copy, in place); identities per (field, axis pair, reference); refusal per (field, unmapped axis pair); "
+        "value scales: integers x 1e-3..1e3, and per (field, axis pair) one more rotate + identities case (reference default / near / 1000 region sizes away), every second presentation family and half of the refusals on one of "
+        "6 scale classes in turn: one power of ten 1e-15..1e-8, one 1e8..1e15, a power of ten per cell, per component, per entry (ranges [-15..-6], [-12..0], [-12..12], [-10..12], [-3..12]; per entry with 10% exact zeros), "
+        "exact zeros (25% of the entries, 40% of the components, 15% of the cells) at one scale 1e-12..1e12; fixed: a 1e-9 displacement field and a (8e5, 0, 0)-like field on a 100 nm sample; "
         "presentation families: 3 components on 3 axes (all 6 bijections x all 6 ordered axis pairs x all 6 key orders), 3 and 4 components on 2 axes (every placement of the two mapped components x both axis pairs "
         "x all 6 resp. 12 of 24 (thorough: all 24) key orders), 2 components on 3 and 4 axes, seeded 2-6 components on 2-4 axes; each variant x k x (copy, in place) against the own oracle and against the canonical writing. non-trivial = more than one cell; distinct by (kind, params)")
 ASSUMPTIONS = [
     "bounded: 2-4 dimensions, <= 5 cells per axis, k in -5..5 (plus +-9, 1002 in thorough), seeded geometry, <= 3 subregions, <= 6 components",
     "a component mapped to a name that is not a dimension of the mesh counts as not mapped (e.g. the z component of a 3-component field on an x-y mesh); injective mappings only",
-    "'to rounding' = 64 ulp relative to the operand scale: max(|corner|,|R|) for coordinates, max |component| of the rotated pair for values (the library multiplies by cos/sin of k*pi/2)",
+    "'to rounding' = 64 ulp relative to the operand scale: max(|corner|,|R|) for coordinates; for values the operand is the single entry that Q moves (64 ulp of that entry; the exact matrix has entries 0, 1, -1, "
+    "so nothing of the partner component may arrive: a result of cos/sin(k*pi/2) evaluated in floating point that leaks eps*partner into the entry is reported with sig 'cos-sin-residue-leaks-partner-component')",
+    "a mesh with subregions whose coordinates are >= 1e3 can only be built when its corners and cell sizes are whole numbers (the constructor's alignment test uses an absolute tolerance, property C14); "
+    "a ROTATION refused for that reason is reported under C12.accept with its own sig",
 ]
 
 DIMS = ["u", "w", "q", "t"]
@@ -48,6 +61,8 @@ VD = ["va", "vb", "vc", "vd", "ve", "vf"]
 LABEL_CLASSES = ("VD", "revsort", "dimnames", "yzx", "shuffled")
 QS = {0: ((1, 0), (0, 1)), 1: ((0, -1), (1, 0)), 2: ((-1, 0), (0, -1)), 3: ((0, 1), (-1, 0))}
 ULPS = 64
+EPS = float(np.finfo(float).eps)
+RESIDUE_SIG = "cos-sin-residue-leaks-partner-component"
 
 
 # ------------------------------------------------------------------------------------------ helpers
@@ -79,6 +94,13 @@ class Agg:
             self.ctx.require(False, clause, what, sig=sig, failures_in_case=cnt, **detail)
 
 
+def asig(v, default=None):
+    """signature of a refused rotation that has to be accepted"""
+    if isinstance(v, ValueError) and "is not aligned with the mesh" in str(v):
+        return "rotated-subregion-refused-by-absolute-alignment-tolerance"      # Mesh.is_aligned: |difference| < 1e-12 whatever the size of the coordinates
+    return default
+
+
 def errtxt(v):
     """text of an exception; nothing for a returned object (the repr of a Field renders an html template, ~50 ms)"""
     return repr(v)[:200] if isinstance(v, BaseException) else None
@@ -96,8 +118,7 @@ def build(pr):
     region = df.Region(p1=tuple(p1), p2=tuple(p2), dims=dims, units=units)
     subs = {"r%d" % i: df.Region(p1=tuple(pmin + np.array(lo) * cell), p2=tuple(pmin + np.array(hi) * cell)) for i, (lo, hi) in enumerate(pr.get("subs") or [])}
     mesh = df.Mesh(region=region, n=tuple(int(k) for k in n), subregions=subs)
-    lin = np.arange(int(np.prod(n))).reshape(tuple(n))
-    array = (1.0 + nvdim * lin[..., None] + np.arange(nvdim)) * np.where(np.arange(nvdim) % 2, -1.0, 1.0) * float(pr.get("vscale", 1.0))
+    array = values(pr, tuple(int(k) for k in n), nvdim)
     valid = np.random.default_rng(pr.get("vseed", 0)).random(tuple(n)) < 0.6
     kw = {}
     vmap = pr.get("vmap")
@@ -119,6 +140,42 @@ def build(pr):
     return field
 
 
+def values(pr, n, nvdim):
+    """the field values: a function of (global cell index, component) that takes every non-zero value once.
+    vclass None: (1 + nvdim*cell + c) * (-1)^c * vscale (integers times one scale).  The other classes put the SCALE of the values under test:
+    distinct mantissas in (1, 1.5] times a power of ten that is the same everywhere ('uniform', 1e-15 .. 1e15), differs from cell to cell ('cellmix'),
+    from component to component ('compmix') or from entry to entry ('allmix', with exact zeros), or with whole components / single entries exactly zero ('zeros')"""
+    lin = np.arange(int(np.prod(n))).reshape(n)
+    comp = np.arange(nvdim)
+    vclass = pr.get("vclass")
+    vscale = float(pr.get("vscale", 1.0))
+    if vclass is None:
+        return (1.0 + nvdim * lin[..., None] + comp) * np.where(comp % 2, -1.0, 1.0) * vscale
+    rng = np.random.default_rng([int(pr.get("vseed", 0)), 12])
+    mant = 1.0 + (1.0 + nvdim * lin[..., None] + comp) / (2.0 * lin.size * nvdim + 2.0)
+    lo, hi = pr.get("vexp") or (-12, 12)
+    sign = np.where(rng.random((*n, nvdim)) < 0.5, -1.0, 1.0)
+    if vclass == "uniform":
+        return mant * sign * vscale
+    if vclass == "cellmix":
+        e = np.broadcast_to(rng.integers(lo, hi + 1, size=n)[..., None], (*n, nvdim))
+    elif vclass == "compmix":
+        e = np.broadcast_to(np.resize(rng.permutation(np.arange(lo, hi + 1)), nvdim), (*n, nvdim))
+    elif vclass == "allmix":
+        e = rng.integers(lo, hi + 1, size=(*n, nvdim))
+    elif vclass == "zeros":
+        e = np.zeros((*n, nvdim), int)
+    else:
+        raise AssertionError("unknown value class %r" % (vclass,))
+    arr = mant * sign * vscale * 10.0 ** e.astype(float)
+    if vclass in ("allmix", "zeros"):
+        arr[rng.random((*n, nvdim)) < (0.1 if vclass == "allmix" else 0.25)] = 0.0
+    if vclass == "zeros":
+        arr[..., rng.random(nvdim) < 0.4] = 0.0                 # whole components that vanish, like the field (Ms, 0, 0)
+        arr[rng.random(n) < 0.15] = 0.0                         # cells without any value
+    return arr
+
+
 def snap(obj):
     """deep description of the observable state of a region / mesh / field"""
     if isinstance(obj, df.Region):
@@ -130,7 +187,8 @@ def snap(obj):
 
 
 def diff(a, b, scale=None, vscale=None, pre=""):
-    """names of the state items in which two snapshots differ; coordinates to ULPS of `scale` (None: exact), values to ULPS of vscale"""
+    """names of the state items in which two snapshots differ; coordinates to ULPS of `scale` (None: exact), values exact (vscale None) or every entry to ULPS ulp of
+    the entry itself (vscale "rel"; never a budget taken from another entry, another cell or an absolute number)"""
     out = []
     if "pmin" in a:
         for key in ("pmin", "pmax"):
@@ -151,7 +209,7 @@ def diff(a, b, scale=None, vscale=None, pre=""):
                 out += sorted({("sub." + d) for d in diff(x, y, scale, vscale, "")})
     else:
         out += diff(a["mesh"], b["mesh"], scale, vscale, pre)
-        if a["array"].shape != b["array"].shape or not (np.array_equal(a["array"], b["array"]) if vscale is None else ulp_close(a["array"], b["array"], ULPS, vscale)):
+        if a["array"].shape != b["array"].shape or not (np.array_equal(a["array"], b["array"]) if vscale is None else ulp_close(a["array"], b["array"], ULPS, None if vscale == "rel" else vscale)):
             out.append("array")
         if a["valid"].shape != b["valid"].shape or a["valid"].dtype != b["valid"].dtype or not np.array_equal(a["valid"], b["valid"]):
             out.append("valid")
@@ -159,6 +217,30 @@ def diff(a, b, scale=None, vscale=None, pre=""):
             if a[key] != b[key]:
                 out.append(key)
     return sorted(set(out))
+
+
+def value_mismatch(got, want, pair, steps=1):
+    """(why, sig) if the values `got` are not `want` (None if they are): a quarter turn only moves and negates numbers, so every entry of the two rotated components
+    must agree with the wanted entry to ULPS ulp of THAT ENTRY (an exact zero stays an exact zero, 1e-12 next to 1e12 stays 1e-12), all other components bit for bit.
+    sig RESIDUE_SIG: every failing entry is off by no more than 2*steps*eps times the magnitude of the partner component in the same cell (what cos/sin of k*pi/2
+    evaluated in floating point, 6e-17 .. 1.8e-16 instead of 0, leaks from the partner into the entry)"""
+    if got.shape != want.shape:
+        return "shape", None
+    nv = want.shape[-1]
+    pair = [c for c in (pair or ()) if c is not None]
+    rest = [c for c in range(nv) if c not in pair]
+    if not np.array_equal(got[..., rest], want[..., rest]):
+        return ("a component that is not mapped to a or b changed" if pair else "scalar value at the image point differs"), None
+    if pair:
+        d = np.abs(got[..., pair] - want[..., pair])
+        bad = ~(d <= ULPS * EPS * np.abs(want[..., pair]))
+        if bad.any():
+            partner = np.max(np.abs(want[..., pair]), axis=-1)[..., None]
+            leak = d <= 2 * steps * EPS * partner
+            i = tuple(int(x[0]) for x in np.nonzero(bad))
+            return ("the two mapped components at the image point are not Q applied to the two mapped components of f(p) (entry %s of the rotated pair: got %r, want %r, partner magnitude %r)"
+                    % (list(i), float(got[..., pair][i]), float(want[..., pair][i]), float(partner[i[:-1]][0]))), (RESIDUE_SIG if bool(np.all(leak[bad])) else None)
+    return None, None
 
 
 def rot_point(p, R, a, b, Q):
@@ -208,16 +290,38 @@ def comp_of(field_snap, dims, a):
 
 # ------------------------------------------------------------------------------------------ cases
 def geometry(rng, nd, with_sub, nmax):
+    n = rng.permutation(np.arange(1, nmax + 1))[:nd] if nmax >= nd else rng.integers(1, nmax + 1, size=nd)   # distinct counts per axis
     if with_sub:
-        s = float(rng.choice([1e-9, 1e-3, 1.0]))
+        s = float(rng.choice([1e-9, 1e-3, 1.0, 1e6]))
         off = rng.uniform(-3, 3, size=nd) * s * float(rng.choice([1.0, 10.0]))
     else:
         s = 10.0 ** rng.uniform(-12, 6)
         off = rng.uniform(-3, 3, size=nd) * s * (10.0 ** rng.integers(0, 3))
     e = rng.uniform(0.3, 1.7, size=nd) * s
+    if with_sub and s >= 1e3:
+        # kilometre-sized sample with subregions: corners and cell sizes are whole numbers, so that pmin + i*cell is exact and the mesh constructor's own
+        # alignment test of the subregions (absolute tolerance) has nothing to complain about on the way in
+        e = n * rng.integers(300, 1700, size=nd).astype(float) * (s / 1e3 / n.max())
+        e = n * np.round(e / n)
+        off = np.round(off)
     flip = rng.integers(0, 2, size=nd).astype(bool)
-    n = rng.permutation(np.arange(1, nmax + 1))[:nd] if nmax >= nd else rng.integers(1, nmax + 1, size=nd)   # distinct counts per axis
     return np.where(flip, off + e, off).tolist(), np.where(flip, off, off + e).tolist(), [int(x) for x in n], s
+
+
+VALUE_CLASSES = ("small", "cellmix", "compmix", "large", "allmix", "zeros")
+
+
+def value_class(rng, i):
+    """the i-th way of scaling the field values (see values()): parameters for build()"""
+    name = VALUE_CLASSES[i % len(VALUE_CLASSES)]
+    if name == "small":        # e.g. a displacement in metres on a nanometre sample
+        return {"vclass": "uniform", "vscale": float(10.0 ** int(rng.integers(-15, -7)))}
+    if name == "large":
+        return {"vclass": "uniform", "vscale": float(10.0 ** int(rng.integers(8, 16)))}
+    if name == "zeros":
+        return {"vclass": "zeros", "vscale": float(10.0 ** int(rng.integers(-12, 13)))}
+    lo = int(rng.choice([-12, -15, -10, -3]))
+    return {"vclass": name, "vscale": 1.0, "vexp": [lo, int(rng.choice([-6, 0, 12])) if lo < -3 else 12]}
 
 
 def random_vmap(rng, nvdim, nd, a=None, b=None):
@@ -304,9 +408,14 @@ def family_cases(ctx, ks):
     rng = ctx.rng
     quick = ctx.tier == "quick"
 
+    nbase = [0]
+
     def base_for(nd, nmax, named):
         p1, p2, n, s = geometry(rng, nd, True, nmax)
         b = {"p1": p1, "p2": p2, "n": n, "vseed": int(rng.integers(1 << 30)), "vscale": float(10.0 ** rng.integers(-3, 4)), "subs": index_boxes(rng, n, 1)}
+        nbase[0] += 1
+        if nbase[0] % 2 == 0:          # every other family on values whose scale is far from 1 / mixed
+            b.update(value_class(rng, nbase[0] // 2))
         if named:
             b["dims"] = ["x", "y", "z"][:nd] if nd <= 3 else ["x0", "x1", "x2", "x3"]
         return b, 0.5 * (np.array(p1) + np.array(p2)), np.abs(np.array(p1) - np.array(p2))
@@ -370,6 +479,7 @@ def cases(ctx):
     quick = ctx.tier == "quick"
     reps = 3 if quick else 12
     ks = list(range(-5, 6)) + ([] if quick else [9, -9, 1002])
+    nscaled = 0
     for nd in (2, 3, 4):
         nmax = {2: 5, 3: 4, 4: 4}[nd] if quick else {2: 5, 3: 5, 4: 4}[nd]
         for rep in range(reps):
@@ -407,6 +517,13 @@ def cases(ctx):
                     yield "rotate", dict(pr, a=a, b=b, ks=ks, ref=ref)
                     if far != 100.0:
                         yield "identities", dict(pr, a=a, b=b, ks=ks, ref=ref)
+                # the same field with values whose scale is far from 1, mixed between cells / components, with exact zeros; reference default / near / 1000 region sizes away
+                nscaled += 1
+                ps = dict(pr, **value_class(rng, nscaled))
+                far = (None, 1.0, 1000.0)[(nscaled // len(VALUE_CLASSES) + nscaled) % 3]
+                ref = None if far is None else (centre + rng.uniform(-1, 1, nd) * size * far).tolist()
+                yield "rotate", dict(ps, a=a, b=b, ks=ks, ref=ref)
+                yield "identities", dict(ps, a=a, b=b, ks=ks, ref=ref if far != 1000.0 else None)
                 # refusal: a vector field whose mapping misses a, b or both
                 if nvdim > 1 or rep == 1:
                     nv = max(nvdim, 2)
@@ -425,11 +542,20 @@ def cases(ctx):
                         if vm != "empty":
                             vm = foreignise(rng, vm, base.get("dims") or DIMS[:nd])
                             pres = presentation(rng, nv, base.get("dims") or DIMS[:nd])
+                        if miss in ("a", "both"):
+                            pres.update(value_class(rng, nscaled + (miss == "both")))
                         yield "refuse", dict(base, nvdim=nv, vmap=vm, a=a, b=b, k=int(rng.choice(ks)), ref=None if rng.random() < 0.5 else centre.tolist(), **pres)
     yield from family_cases(ctx, ks)
     # fixed: the documented example and default 3-d vector field
     yield "rotate", {"p1": [0.0, 0.0, 0.0], "p2": [10.0, 8.0, 6.0], "n": [10, 4, 6], "nvdim": 3, "vseed": 5, "subs": [[[0, 0, 0], [5, 2, 6]]], "vmap": None,
                      "a": 0, "b": 1, "ks": ks, "ref": None, "dims": ["x", "y", "z"]}
+    # fixed: a displacement field in metres on a nanometre sample; a saturated magnetisation along one axis (two components exactly zero)
+    for extra in ({"vclass": "uniform", "vscale": 1e-9}, {"vclass": "zeros", "vscale": 8e5}):
+        for a, b in ((0, 1), (2, 0)):
+            fx = dict({"p1": [0.0, 0.0, 0.0], "p2": [100e-9, 60e-9, 20e-9], "n": [5, 3, 2], "nvdim": 3, "vseed": 11, "subs": [[[0, 0, 0], [2, 3, 1]]], "vmap": None,
+                       "a": a, "b": b, "ks": ks, "ref": [20e-9, -35e-9, 5e-9], "dims": ["x", "y", "z"]}, **extra)
+            yield "rotate", fx
+            yield "identities", fx
     yield "refuse", {"p1": [0.0, 0.0, 0.0], "p2": [10.0, 8.0, 6.0], "n": [5, 4, 3], "nvdim": 2, "vseed": 5, "subs": [], "vmap": "empty",
                      "a": 0, "b": 2, "k": 1, "ref": None, "dims": ["x", "y", "z"]}
 
@@ -497,7 +623,7 @@ def check_rotate(pr, ag):
         ksig = "large-k-trigonometric-rounding" if abs(k) > 64 else None      # the library evaluates cos/sin(k*pi/2) without reducing k
         exp, idx, (ca, cb) = expected_field(s0, dims, a, b, k, R)
         r, g = raises(Exception, lambda: f0.rotate90(**kw))
-        if not ag.req(not r, "C12.accept", "Field.rotate90 (copy) raised", sig=ksig, k=k, a=a, b=b, error=errtxt(g)):
+        if not ag.req(not r, "C12.accept", "Field.rotate90 (copy) raised", sig=asig(g) or ksig, k=k, a=a, b=b, error=errtxt(g)):
             continue
         ag.req(not diff(snap(f0), s0), "C12.inplace_eq_copy", "the copying form modified the receiver", sig="copy-modifies-receiver", k=k, changed=diff(snap(f0), s0))
         sg = snap(g)
@@ -520,7 +646,7 @@ def check_rotate(pr, ag):
                got=[(x, y["pmin"], y["pmax"], y["units"]) for x, y in sg["mesh"]["subs"]], want=[(x, y["pmin"], y["pmax"]) for x, y in exp["mesh"]["subs"]])
         # --- point map: own lookup of R+Q(p-R) in the result lattice, values, validity
         okp = np.array_equal(sg["mesh"]["n"], exp["mesh"]["n"]) and sg["array"].shape == exp["array"].shape and sg["valid"].shape == exp["valid"].shape
-        why = "shape"
+        why, vsig = "shape", None
         if okp:
             Q = QS[k % 4]
             n0 = s0["mesh"]["n"]
@@ -537,19 +663,12 @@ def check_rotate(pr, ag):
             else:
                 got = sg["array"][tuple(idx)]                # g at the image cell of every source cell
                 want = exp["array"][tuple(idx)]
-                if s0["nvdim"] > 1:
-                    vs = np.maximum(np.abs(s0["array"][..., ca]), np.abs(s0["array"][..., cb]))
-                    pair = [ca, cb]
-                    rest = [c for c in range(s0["nvdim"]) if c not in pair]
-                    okv = bool(np.all(np.abs(got[..., pair] - want[..., pair]) <= ULPS * np.finfo(float).eps * vs[..., None])) and np.array_equal(got[..., rest], want[..., rest])
-                else:
-                    okv = np.array_equal(got, want)
-                if not okv:
-                    okp, why = False, "value at the image point is not Q f(p)"
+                whyv, vsig = value_mismatch(got, want, [ca, cb] if s0["nvdim"] > 1 else None)
+                if whyv:
+                    okp, why = False, "value at the image point is not Q f(p): " + whyv
                 elif not (sg["valid"].dtype == bool and np.array_equal(sg["valid"][tuple(idx)], s0["valid"])):
                     okp, why = False, "validity does not move with the cell"
-        ag.req(okp, "C12.point_map", "g(R+Q(p-R)) != Q f(p): " + why, sig=ksig, k=k, a=a, b=b, R=R, comps=[ca, cb], got=sg["array"][..., 0] if sg["array"].ndim else None,
-               want=exp["array"][..., 0])
+        ag.req(okp, "C12.point_map", "g(R+Q(p-R)) != Q f(p): " + why, sig=vsig or ksig, k=k, a=a, b=b, R=R, comps=[ca, cb])
         # --- consistency region / mesh / field
         rm, gm = raises(Exception, lambda: f0.mesh.rotate90(**kw))
         rr, gr = raises(Exception, lambda: f0.mesh.region.rotate90(**kw))
@@ -565,7 +684,7 @@ def check_rotate(pr, ag):
             if not ag.req(not ri, "C12.inplace_eq_copy", "in-place rotation raised where the copying form succeeds", sig="inplace-raises-" + what, k=k, error=errtxt(ret)):
                 continue
             ag.req(ret is obj, "C12.inplace_eq_copy", "in-place rotation does not return the object itself", sig="inplace-returns-other-" + what, k=k)
-            d = diff(snap(obj), snap(cp), sc, float(np.abs(s0["array"]).max()))
+            d = diff(snap(obj), snap(cp), sc, "rel")
             sig = None
             if d and set(d) <= {"units", "sub.units"} and k % 2 == 1 and tuple(region_units(obj)) == tuple(r0["units"]):
                 sig = "inplace-rotate90-odd-k-units-not-swapped"
@@ -580,6 +699,15 @@ def region_units(obj):
     return obj.mesh.region.units
 
 
+def ident_diff(s, s0, sc, pair, steps):
+    """(differing items, sig) of a state that has to be the state s0 again: geometry to ULPS of sc, every value to ULPS ulp of the value itself, rest exact"""
+    d = diff(s, s0, sc, "rel")
+    if "array" not in d:
+        return d, None
+    why, vsig = value_mismatch(s["array"], s0["array"], pair, steps)
+    return d + [str(why)], (vsig if d == ["array"] else None)
+
+
 def check_identities(pr, ag):
     a, b, ref = pr["a"], pr["b"], pr["ref"]
     f0 = make(pr)
@@ -589,12 +717,12 @@ def check_identities(pr, ag):
     C = 0.5 * (r0["pmin"] + r0["pmax"])
     R = C if ref is None else np.array(ref, float)
     sc = 4 * scale_ab(r0, R, a, b) + 4 * float(np.max(np.abs(R - C)))     # four steps, every intermediate box within |R| + |x-R|
-    vs = 4 * np.abs(s0["array"]).max()
+    pair = [comp_of(s0, dims, a), comp_of(s0, dims, b)] if s0["nvdim"] > 1 else []
     # k vs k mod 4
     base = {}
     for k in pr["ks"]:
         r, g = raises(Exception, lambda: f0.rotate90(**rot_kwargs(dims, a, b, k, ref)))
-        if not ag.req(not r, "C12.accept", "Field.rotate90 raised", sig="large-k-trigonometric-rounding" if abs(k) > 64 else None, k=k, error=errtxt(g)):
+        if not ag.req(not r, "C12.accept", "Field.rotate90 raised", sig=asig(g) or ("large-k-trigonometric-rounding" if abs(k) > 64 else None), k=k, error=errtxt(g)):
             continue
         m = k % 4
         if m not in base:
@@ -602,7 +730,7 @@ def check_identities(pr, ag):
             base[m] = None if rb else snap(gb)
         if base[m] is None:
             continue
-        d = diff(snap(g), base[m], sc, vs)
+        d = diff(snap(g), base[m], sc, "rel")
         ksig = "large-k-trigonometric-rounding" if abs(k) > 64 else None
         ag.req(not d, "C12.k_mod_4", "rotation by k differs from rotation by k mod 4", sig=ksig, k=k, differs=d)
         # region and mesh alone
@@ -616,16 +744,18 @@ def check_identities(pr, ag):
             if r:
                 ok = False
                 break
-        d = ["raised: " + repr(g)[:120]] if not ok else diff(snap(g), s0, sc, vs)
-        ag.req(not d, "C12.four_turns", "four quarter turns are not the identity", k=k1, differs=d)
+        d, sig = (["raised: " + repr(g)[:120]], asig(g)) if not ok else ident_diff(snap(g), s0, sc, pair, 4)
+        ag.req(not d, "C12.four_turns", "four quarter turns are not the identity", sig=sig, k=k1, differs=d)
         # in place, on a private copy
         h = make(pr)
-        ok = True
+        ok, err = True, None
         for _ in range(4):
             r, e = raises(Exception, lambda: h.rotate90(inplace=True, **rot_kwargs(dims, a, b, k1, ref)))
-            ok &= not r
-        d = ["raised"] if not ok else diff(snap(h), s0, sc, vs)
-        ag.req(not d, "C12.four_turns", "four in-place quarter turns are not the identity", k=k1, differs=d)
+            if r:
+                ok, err = False, e
+                break
+        d, sig = (["raised: " + repr(err)[:120]], asig(err)) if not ok else ident_diff(snap(h), s0, sc, pair, 4)
+        ag.req(not d, "C12.four_turns", "four in-place quarter turns are not the identity", sig=sig, k=k1, differs=d)
     # turn + reverse
     for k in pr["ks"]:
         r, g = raises(Exception, lambda: f0.rotate90(**rot_kwargs(dims, a, b, k, ref)))
@@ -633,11 +763,11 @@ def check_identities(pr, ag):
             continue
         r1, h1 = raises(Exception, lambda: g.rotate90(**rot_kwargs(dims, a, b, -k, ref)))
         r2, h2 = raises(Exception, lambda: g.rotate90(**rot_kwargs(dims, b, a, k, ref)))
-        d1 = ["raised: " + repr(h1)[:120]] if r1 else diff(snap(h1), s0, sc, vs)
-        d2 = ["raised: " + repr(h2)[:120]] if r2 else diff(snap(h2), s0, sc, vs)
+        d1, sig1 = (["raised: " + repr(h1)[:120]], asig(h1)) if r1 else ident_diff(snap(h1), s0, sc, pair, 2)
+        d2, sig2 = (["raised: " + repr(h2)[:120]], asig(h2)) if r2 else ident_diff(snap(h2), s0, sc, pair, 2)
         ksig = "large-k-trigonometric-rounding" if abs(k) > 64 else None
-        ag.req(not d1, "C12.turn_reverse", "rotation by k then by -k is not the identity", sig=ksig, k=k, differs=d1)
-        ag.req(not d2, "C12.turn_reverse", "rotation a->b by k then b->a by k is not the identity", sig=ksig, k=k, differs=d2)
+        ag.req(not d1, "C12.turn_reverse", "rotation by k then by -k is not the identity", sig=sig1 or ksig, k=k, differs=d1)
+        ag.req(not d2, "C12.turn_reverse", "rotation a->b by k then b->a by k is not the identity", sig=sig2 or ksig, k=k, differs=d2)
 
 
 def check_refuse(pr, ag):
@@ -671,34 +801,31 @@ def check_refuse(pr, ag):
     ag.req(not d, "C12.refuse_unmapped", "refused in-place rotation left the field modified", sig=sig, k=k, a=a, b=b, differs=d, array_shape_matches_mesh=shape_ok)
     # the mesh and region of such a field still rotate (nothing to map there)
     r, gm = raises(Exception, lambda: make(pr).mesh.rotate90(**kw))
-    ag.req(not r, "C12.accept", "mesh of an unmapped vector field cannot be rotated", error=errtxt(gm))
+    ag.req(not r, "C12.accept", "mesh of an unmapped vector field cannot be rotated", sig=asig(gm), error=errtxt(gm))
 
 
 def oracle_mismatch(sg, exp, s0, comps, sc):
-    """why the state sg is not the own oracle's rotated field exp (None if it is): mesh (geometry to ULPS of sc, rest exact), values (the rotated pair to ULPS of
-    the pair's magnitude in that cell, everything else exact), validity (exact), names (exact)"""
+    """(why, sig): why the state sg is not the own oracle's rotated field exp (None if it is): mesh (geometry to ULPS of sc, rest exact), values (every entry of the rotated
+    pair to ULPS ulp of the entry itself, everything else exact), validity (exact), names (exact)"""
     dm = diff(sg["mesh"], exp["mesh"], sc)
     if dm:
-        return "mesh: " + ",".join(dm)
+        return "mesh: " + ",".join(dm), None
     if sg["array"].shape != exp["array"].shape or sg["valid"].shape != exp["valid"].shape:
-        return "shape"
-    nv = s0["nvdim"]
-    if nv > 1:
-        pair = list(comps)
-        rest = [c for c in range(nv) if c not in pair]
-        vs = np.max(np.abs(exp["array"][..., pair]), axis=-1)         # Q is a signed permutation: the magnitudes of the pair move with the cell
-        if not np.all(np.abs(sg["array"][..., pair] - exp["array"][..., pair]) <= ULPS * np.finfo(float).eps * vs[..., None]):
-            return "the two mapped components at the image point are not Q applied to the two mapped components of f(p)"
-        if not np.array_equal(sg["array"][..., rest], exp["array"][..., rest]):
-            return "a component that is not mapped to a or b changed"
-    elif not np.array_equal(sg["array"], exp["array"]):
-        return "scalar value at the image point differs"
+        return "shape", None
+    why, vsig = value_mismatch(sg["array"], exp["array"], list(comps) if s0["nvdim"] > 1 else None)
+    if why:
+        return why, vsig
     if sg["valid"].dtype != bool or not np.array_equal(sg["valid"], exp["valid"]):
-        return "validity does not move with the cell"
+        return "validity does not move with the cell", None
     for key in ("vdims", "vmap", "unit", "nvdim"):
         if sg[key] != exp[key]:
-            return "names: " + key
-    return None
+            return "names: " + key, None
+    return None, None
+
+
+def point_sig(pr):
+    """signature of a point-map failure in a presentation family: on the integer-valued fields the only thing that varies is the writing of the mapping"""
+    return "wrong-components-for-reordered-or-relabelled-mapping" if pr.get("vclass") is None else None
 
 
 def check_presentation(pr, ag):
@@ -730,7 +857,7 @@ def check_presentation(pr, ag):
         rc, gc = raises(Exception, lambda: fc.rotate90(**kw))
         hc = make(canon)
         rci, _ = raises(Exception, lambda: hc.rotate90(inplace=True, **kw))
-        if not ag.req(not rc and not rci, "C12.accept", "rotation of the canonically written field raised", sig=ksig, k=k, a=a, b=b, error=errtxt(gc)):
+        if not ag.req(not rc and not rci, "C12.accept", "rotation of the canonically written field raised", sig=asig(gc) or ksig, k=k, a=a, b=b, error=errtxt(gc)):
             continue
         sgc, shc = snap(gc), snap(hc)
         for p, (_, f), s0 in zip(variants, fields, snaps):
@@ -738,12 +865,12 @@ def check_presentation(pr, ag):
             exp, idx, comps = expected_field(s0, dims, a, b, k, R)
             # copying form
             r, g = raises(Exception, lambda: f.rotate90(**kw))
-            if not ag.req(not r, "C12.accept", "Field.rotate90 (copy) raised for a field with both components mapped", sig=ksig or "accept-depends-on-writing-of-mapping", k=k, a=a, b=b, error=errtxt(g), **tag):
+            if not ag.req(not r, "C12.accept", "Field.rotate90 (copy) raised for a field with both components mapped", sig=asig(g) or ksig or "accept-depends-on-writing-of-mapping", k=k, a=a, b=b, error=errtxt(g), **tag):
                 continue
             ag.req(not diff(snap(f), s0), "C12.inplace_eq_copy", "the copying form modified the receiver", sig="copy-modifies-receiver", k=k, changed=diff(snap(f), s0), **tag)
             sg = snap(g)
-            why = oracle_mismatch(sg, exp, s0, comps, sc)
-            ag.req(why is None, "C12.point_map", "g(R+Q(p-R)) != Q f(p) (copy form): %s" % why, sig=ksig or "wrong-components-for-reordered-or-relabelled-mapping", k=k, a=a, b=b, R=R, comps=list(comps),
+            why, vsig = oracle_mismatch(sg, exp, s0, comps, sc)
+            ag.req(why is None, "C12.point_map", "g(R+Q(p-R)) != Q f(p) (copy form): %s" % why, sig=vsig or ksig or point_sig(pr), k=k, a=a, b=b, R=R, comps=list(comps),
                    f_first_cell=s0["array"][(0,) * len(dims)], g_image_cell=sg["array"][tuple(int(i[(0,) * len(dims)]) for i in idx)] if sg["array"].shape == exp["array"].shape else None,
                    want=exp["array"][tuple(int(i[(0,) * len(dims)]) for i in idx)], **tag)
             same = np.array_equal(sg["array"], sgc["array"]) and np.array_equal(sg["valid"], sgc["valid"]) and not diff(sg["mesh"], sgc["mesh"]) \
@@ -757,9 +884,9 @@ def check_presentation(pr, ag):
                 continue
             ag.req(ret is h, "C12.inplace_eq_copy", "in-place rotation does not return the object itself", sig="inplace-returns-other-field", k=k)
             sh = snap(h)
-            why = oracle_mismatch(sh, exp, s0, comps, sc)
-            ag.req(why is None, "C12.point_map", "g(R+Q(p-R)) != Q f(p) (in-place form): %s" % why, sig=ksig or "wrong-components-for-reordered-or-relabelled-mapping", k=k, a=a, b=b, R=R, comps=list(comps), **tag)
-            d = diff(sh, sg, sc, float(np.abs(s0["array"]).max()))
+            why, vsig = oracle_mismatch(sh, exp, s0, comps, sc)
+            ag.req(why is None, "C12.point_map", "g(R+Q(p-R)) != Q f(p) (in-place form): %s" % why, sig=vsig or ksig or point_sig(pr), k=k, a=a, b=b, R=R, comps=list(comps), **tag)
+            d = diff(sh, sg, sc, "rel")
             ag.req(not d, "C12.inplace_eq_copy", "state after the in-place form differs from the copy form's result (field)", k=k, a=a, b=b, differs=d, **tag)
             same = np.array_equal(sh["array"], shc["array"]) and np.array_equal(sh["valid"], shc["valid"]) and not diff(sh["mesh"], shc["mesh"]) \
                 and sh["vdims"] == s0["vdims"] and sh["vmap"] == s0["vmap"] and sh["unit"] == shc["unit"]
